@@ -31,6 +31,8 @@ FAMILIES = {
     # map_ref / map_with_old / pairs under necessity changes
     "ref_s": fam(Ctors=["pvar", "mapref", "pmap"], Fs1=["id", "fst"], MaxNodes=3, MaxObs=2, MaxActs=8, MaxRounds=3),
     "mwo_s": fam(Ctors=["var", "mwo", "map", "mapref"], Fs1=["id", "const0"], MaxNodes=3, MaxObs=2, MaxActs=8, MaxRounds=3),
+    # map_with_old -> map_ref -> dependant (the projection's dependants only learn of changes through child_changed)
+    "mwo4_s": fam(Ctors=["var", "mwo", "mapref", "map"], Fs1=["id"], MaxNodes=4, MaxObs=1, MaxActs=8, MaxRounds=2),
     # cutoffs on every node incl. vars, K = 3 so that non-equal suppression exists
     "cut_s": fam(K=3, Ctors=["var", "map", "cutoff"], Fs1=["id", "min1"], Cutoffs=["never", "always", "min1", "le"],
                  MaxNodes=3, MaxObs=1, MaxActs=8, MaxRounds=3),
@@ -63,6 +65,12 @@ FAMILIES = {
                    MaxActs=9, MaxRounds=2, MaxH=16),
     "misuse_s": fam(Ctors=["var", "map", "bind"], RecipeKinds=["foreign", "const"], Fs1=["id"], Effs=["stabilise"],
                     MaxNodes=4, MaxObs=1, MaxActs=8, MaxRounds=2, MaxH=16),
+    # directed exhaustive families: fixed program (spec/MC.tla Prog*), all histories
+    "p_cutreobs": fam(K=3, Prog="ProgCutReobs", Ops=["set"], MaxVars=1, MaxNodes=3, MaxObs=3, MaxActs=12, MaxRounds=4),
+    "p_bindtall": fam(Prog="ProgBindTall", Ops=["set"], MaxVars=3, MaxNodes=9, MaxObs=2, MaxActs=14, MaxRounds=2, MaxH=16),
+    "p_grow": fam(K=3, Prog="ProgGrow", Ops=["set"], MaxVars=2, MaxNodes=5, MaxObs=1, MaxActs=12, MaxRounds=4, MaxH=16),
+    "p_refcut": fam(K=3, Prog="ProgRefCut", Ops=["set"], MaxVars=1, MaxNodes=4, MaxObs=2, MaxActs=10, MaxRounds=4),
+    "p_update": fam(Prog="ProgUpdateOther", Ops=["set"], MaxVars=2, MaxNodes=3, MaxObs=2, MaxActs=8, MaxRounds=2),
     # expert constructions
     "xjoin_s": fam(Ctors=["var", "nvar", "xjoin"], MaxVars=3, MaxNodes=5, MaxObs=1, MaxActs=9, MaxRounds=3, MaxH=16),
     "xsum_s": fam(K=3, Ctors=["var", "xsum"], MaxVars=2, MaxNodes=4, MaxObs=1, MaxActs=8, MaxRounds=3, MaxH=16),
@@ -75,29 +83,47 @@ for _n in [n for n in list(FAMILIES) if n.endswith("_s")]:
         _d = dict(FAMILIES[_n]); _d["MaxActs"] += 1; _d["timeout"] = 3000
         FAMILIES[_m] = _d
 FAMILIES["pick_q"] = dict(FAMILIES["pick_s"], MaxActs=8)
+for _n in [n for n in list(FAMILIES) if n.startswith("p_")]:
+    _d = dict(FAMILIES[_n]); _d["MaxActs"] += 2; _d["MaxRounds"] += 1; _d["timeout"] = 3000
+    FAMILIES[_n + "_m"] = _d
 # keep the exported sample of behaviours around 50-80k per family (TLC still visits every state)
 for _n, _mod in dict(bind_s=2, leak_s=2, nest_s=3, ref_s=4, mwo_s=6, cut_s=5, pick_s=6, pick_q=3, xjoin_s=3, xsum_s=2,
                      bind_m=40, leak_m=12, nest_m=15, ref_m=20, mwo_m=30, cut_m=25, pick_m=30, xjoin_m=15, xsum_m=10,
-                     core_m=10, obs_m=6, var_m=2, obsfx_s=4, eff_s=2, own_s=2, ownbind_s=3, panic_s=2, cycle_s=3,
+                     core_m=10, obs_m=6, var_m=2, mwo4_s=4, mwo4_m=20, p_cutreobs=8, p_bindtall=2, obsfx_s=4, eff_s=2, own_s=2, ownbind_s=3, panic_s=2, cycle_s=3,
                      obsfx_m=20, eff_m=10, own_m=10, ownbind_m=15, panic_m=10, cycle_m=15, memo_m=5, height_m=4, bindalt_m=3).items():
     FAMILIES[_n]["ExportMod"] = _mod
 
 
+# thorough only: TLC simulation (random walks, every invariant evaluated in every visited state) over the union of
+# the constructors with bounds far beyond exhaustive reach; each walk is exported and replayed / judged
+FAMILIES["sim_engine"] = fam(K=3, Ctors=["var", "pvar", "const", "map", "pmap", "map2", "fold", "mapref", "mwo", "zip", "dependon",
+                                        "bind", "cutoff", "drop", "clone"],
+                             Fs1=["id", "inc", "const0", "min1", "fst", "snd", "dup", "halfp"], Fs2=["add", "max"],
+                             Cutoffs=["never", "always", "min1", "le"], RecipeKinds=["const", "map", "leakmap", "nested", "altchain", "altmap"],
+                             Ops=["set", "update", "modify", "replace", "replace_with"], Effs=["set", "read", "h_set"],
+                             MaxVars=3, MaxNodes=9, MaxObs=4, MaxSubs=3, MaxActs=30, MaxRounds=8, MaxH=32, Late=True,
+                             simulate=3000, depth=400, timeout=1500)
+FAMILIES["sim_expert"] = fam(K=3, Ctors=["var", "nvar", "map", "xjoin", "xsum", "drop"], Fs1=["id", "inc"],
+                             MaxVars=4, MaxNodes=9, MaxObs=3, MaxActs=30, MaxRounds=8, MaxH=32, Late=True,
+                             simulate=3000, depth=400, timeout=1500)
+
+
 def plan(*names):
-    return dict(quick=list(names), thorough=[n[:-2] + "_m" if n.endswith(("_s", "_q")) else n for n in names])
+    return dict(quick=list(names),
+                thorough=[n[:-2] + "_m" if n.endswith(("_s", "_q")) else (n + "_m" if n.startswith("p_") else n) for n in names])
 
 
 RND = dict(quick=48, thorough=600, len=40)
 
 PROPS = {
-    "C01": dict(families=plan("core_s", "ref_s", "pick_q"), random=RND),
-    "C02": dict(random=RND, families=plan("bind_s", "nest_s")),
+    "C01": dict(families=plan("core_s", "ref_s", "pick_q", "mwo4_s"), random=RND),
+    "C02": dict(random=RND, families=plan("bind_s", "nest_s", "p_bindtall", "p_grow")),
     "C03": dict(random=RND, families=plan("leak_s", "bind_s")),
     "C04": dict(families=plan("leak_s", "xjoin_s", "obsfx_s"), profiles=["debug", "release"], random=dict(quick=24, thorough=300, len=40)),
     "C05": dict(random=RND, families=plan("obs_s", "obsfx_s", "pick_q")),
-    "C06": dict(random=RND, families=plan("cut_s", "mwo_s")),
-    "C07": dict(random=RND, families=plan("obs_s", "eff_s")),
-    "C08": dict(random=RND, families=plan("var_s", "eff_s", "obsfx_s")),
+    "C06": dict(random=RND, families=plan("cut_s", "mwo4_s", "p_cutreobs", "p_refcut")),
+    "C07": dict(random=RND, families=plan("obs_s", "eff_s", "p_update")),
+    "C08": dict(random=RND, families=plan("var_s", "eff_s", "obsfx_s", "p_update")),
     "C09": dict(random=RND, families=plan("obs_s", "obsfx_s")),
     "C10": dict(random=RND, families=plan("obs_s", "obsfx_s")),
     # thorough additionally audits the snapshots of the repository's own 74 tests (stage_owntests)
